@@ -288,9 +288,9 @@ def bind2_transforms(ctx, modules: Iterable[str]) -> int:
                 if npar != 2:
                     problems.append(f"scan body takes {npar} parameters (needs carry, x)")
                 if isinstance(clo.node, ast.FunctionDef):
-                    for r in [x for x in ast.walk(clo.node) if isinstance(x, ast.Return)]:
-                        if not (isinstance(r.value, ast.Tuple) and len(r.value.elts) == 2) and \
-                                not isinstance(r.value, ast.Call):
+                    from ..model import returned_values
+                    for _, rv in returned_values(clo.node):
+                        if not (isinstance(rv, ast.Tuple) and len(rv.elts) == 2) and not isinstance(rv, ast.Call):
                             problems.append("scan body does not return a (carry, y) pair")
                 elif isinstance(clo.node, ast.Lambda):
                     b = clo.node.body
